@@ -638,7 +638,7 @@ func (r *runner) execOp(t *rt.Task, op *Op) *OpResult {
 	if op.Kind == "create" {
 		b := r.binding(op.Sess)
 		b.once.Do(func() {
-			if res.Status == 201 && res.Location != "" {
+			if res.Status == 201 && res.Location != "" && !op.OneTime {
 				i := strings.LastIndex(res.Location, "/")
 				b.ref = res.Location[i+1:]
 				b.supi = op.Supi
